@@ -42,7 +42,7 @@ def layout(rng, hostile=True):
 def ref_dfa(rng, max_states=5, syms='ab', connected=False, names=None):
     n = rng.randint(1, max_states)
     k = rng.randint(1, len(syms))
-    nm = names if names is not None else rng.choice([None, fag.random_names(rng, n)])
+    nm = names if names is not None else rng.choice([None, fag.random_names(rng, n), fag.hint_names(rng, n, 'q')])
     if nm is not None:
         nm = nm[:n] if len(nm) >= n else None
     f = fag.random_connected_dfa if connected else rng.choice([fag.random_dfa, fag.random_connected_dfa])
